@@ -23,7 +23,7 @@ CHECKS = {
     "C08": ("contract on parser.read_3d_structure vs expected atom multiset from a known abstract table", "4.C08",
             "Generated and corpus tables are emitted as PDB and mmCIF by an independent emitter; every read (default, each model, absent model) is compared with the expected atom multiset per model; all NMR models of the corpus ensembles; the raw corpus files (gzip, MODRES, entity categories) against an independently read table, with and without nucleic_acid_only; label-only mmCIF, six-digit serials, CRLF / stripped / tabbed texts, number spellings, pairs 0.5004-0.5009 A apart, an 80 005-atom table, the same path rewritten with content of the same size."),
     "C09": ("round-trip twins through parser_v2 + 80-column grammar and record automaton on every write_pdb result", "4.C09",
-            "Four write/read paths per table compared field by field with the abstract table; every written PDB document is parsed by an independent column grammar and a record-sequence automaton; a third of the round trips use the other documented input/output object kinds (StringIO, text/binary handles, paths)."),
+            "Four write/read paths per table compared field by field with the abstract table; every written PDB document is parsed by an independent column grammar and a record-sequence automaton; a third of the round trips use the other documented input/output object kinds (StringIO, text/binary handles, paths); serial numbers restarting per model; more than 65 536 atom lines; blank chain ids on both paths that start from PDB."),
     "C10": ("contract on fit_to_pdb + independent feasibility test + bijection check + write/read back", "4.C10",
             "Tables within and beyond PDB limits (incl. >62 chains, >9999 residues per chain, >99999 atoms in thorough, residues with non-contiguous records, derived/subset frames) are fitted; result judged for limits, field preservation, one-to-one renaming, refusal iff infeasible, and survival of write_pdb/parse_pdb_atoms; chain names that are runs of consecutive one-character ids (AB, Za, 12)."),
     "C11": ("contracts on find_pairs/find_stackings + frozen Saenger/Zirbel tables + re-read CSV/JSON", "4.C11",
@@ -57,7 +57,7 @@ LEVEL_NOTE = {
     "C06": "is_nucleotide trusted; canonical rule and class orientation convention documented in DESIGN.md 4.C06",
     "C07": "interior convention documented in DESIGN.md 4.C07; slices compared with the text elements itself used",
     "C08": "emitter is part of the trusted base; lenient justification of dropped atoms; PDB blank occupancy outside the domain",
-    "C09": "blank chain only on PDB->PDB; tolerance 0.001/0.01 as stated",
+    "C09": "blank chain ids where the table starts as PDB (PDB->PDB, PDB->mmCIF->PDB); tolerance 0.001/0.01 as stated",
     "C10": "feasibility conditions frozen in vmon/props/c10.py; a blank optional field equals a missing one",
     "C11": "frozen Saenger table checked reverse-symmetric at start-up; Zirbel classes frozen",
     "C12": "fresh-object model rebuilt from the text at creation; all_dot_brackets compared as a set",
